@@ -31,6 +31,7 @@ import (
 	"os/exec"
 	"strconv"
 	"strings"
+	"time"
 
 	"github.com/33cn/chain33/types"
 
@@ -61,6 +62,14 @@ type env struct {
 	order    []int
 	refs     map[string]*chainkit.Snapshot // reference snapshots by (tree signature, winner)
 	broken   bool
+	dir      string // data directory of the node under test (survives `restart`)
+	ncase    int
+	clock    int64 // seconds the node's clock runs ahead
+	junk     int   // junk orphans delivered
+	finMax   int64 // highest finalised height observed in this case
+	restarts int
+	lim, ttl int
+	evs      []string // events of the case in order (for failure details)
 }
 
 func (e *env) closeNode() {
@@ -68,6 +77,26 @@ func (e *env) closeNode() {
 		e.node.Close()
 		e.node = nil
 	}
+	if e.dir != "" {
+		os.RemoveAll(e.dir)
+		e.dir = ""
+	}
+	if e.clock != 0 {
+		e.clock = 0
+		chainkit.SetClockAhead(0)
+	}
+}
+
+func (e *env) openNode() {
+	e.node = chainkit.NewNodeAt(e.dir, "leveldb", chainkit.Options{RecordSequence: e.rec, PushSubscribe: false})
+}
+
+func (e *env) noteFin() int64 {
+	h, _ := e.node.Finalized()
+	if h > e.finMax {
+		e.finMax = h
+	}
+	return h
 }
 
 func (e *env) ensureTree() bool {
@@ -116,10 +145,29 @@ func (e *env) run(line string) string {
 	}
 	switch w[0] {
 	case "case":
-		if len(w) != 6 {
+		if len(w) != 6 && len(w) != 8 {
 			return "bad-op"
 		}
 		e.closeNode()
+		e.lim, e.ttl = 10240, 600
+		if len(w) == 8 {
+			l, ok1 := atoi(w[6])
+			t, ok2 := atoi(w[7])
+			sl, st, _ := chainkit.OrphanLimits()
+			if !ok1 || !ok2 || l != sl || t != st {
+				return "bad-op" // the line must carry the constants of the source under test
+			}
+			e.lim, e.ttl = l, t
+		}
+		e.junk, e.finMax, e.restarts = 0, 0, 0
+		e.evs = nil
+		e.ncase++
+		base := os.Getenv("VERIF_TMP")
+		if base == "" {
+			base = os.TempDir()
+		}
+		e.dir = fmt.Sprintf("%s/c25node.%d.%d", base, os.Getpid(), e.ncase)
+		os.RemoveAll(e.dir)
 		e.name = w[1]
 		e.rec = w[4] == "1"
 		e.specs = []chainkit.BlockSpec{{}}
@@ -131,7 +179,8 @@ func (e *env) run(line string) string {
 		if w[2] != fmt.Sprint(finalized) || w[3] != fmt.Sprint(margin) {
 			return "bad-op"
 		}
-		e.node = chainkit.NewNode(chainkit.Options{RecordSequence: e.rec, PushSubscribe: false})
+		chainkit.PrimeFinalizer(e.dir)
+		e.openNode()
 		g := e.node.Genesis()
 		if fmt.Sprint(g.Difficulty) != w[5] {
 			return "bad-op"
@@ -174,6 +223,79 @@ func (e *env) run(line string) string {
 	if !e.ensureTree() {
 		return "bad-op"
 	}
+	switch w[0] {
+	case "tick":
+		if len(w) != 2 {
+			return "bad-op"
+		}
+		n, ok := atoi(w[1])
+		if !ok || n < 0 {
+			return "bad-op"
+		}
+		e.clock += int64(n)
+		chainkit.SetClockAhead(e.clock)
+		e.evs = append(e.evs, "tick"+w[1])
+		out.Stat("ticks", 1)
+		return "ok"
+	case "fin":
+		if len(w) != 1 {
+			return "bad-op"
+		}
+		return fmt.Sprintf("fin=%d", e.noteFin())
+	case "restart":
+		if len(w) != 1 {
+			return "bad-op"
+		}
+		e.node.Close()
+		e.openNode()
+		// let the wallet's start-up scan finish (see chainkit.WaitWalletScan): genesis tx + every
+		// transaction of the main chain (all are sent by a wallet key)
+		want := 1
+		hs, _ := e.node.MainChain()
+		for _, h := range hs[1:] {
+			if i := e.tree.Index(h); i > 0 {
+				want += len(e.tree.Blocks[i].Txs)
+			}
+		}
+		if !e.node.WaitWalletScan(want, 10*time.Second) {
+			out.Note("wallet scan did not reach the expected count")
+		}
+		e.restarts++
+		e.evs = append(e.evs, "restart")
+		out.Stat("restarts", 1)
+		e.noteFin()
+		return e.tipStr()
+	case "junk":
+		if len(w) != 2 {
+			return "bad-op"
+		}
+		n, ok := atoi(w[1])
+		if !ok || n < 0 {
+			return "bad-op"
+		}
+		for k := 0; k < n; k++ {
+			r := e.node.Deliver(chainkit.JunkBlock(e.junk+k), "peerJ")
+			if r.String() != "orphan" {
+				out.Note("junk block not taken as orphan: " + r.String())
+			}
+		}
+		e.junk += n
+		e.evs = append(e.evs, "junk"+w[1])
+		out.Stat("junk_orphans", int64(n))
+		return "ok"
+	case "isjunk":
+		if len(w) != 2 {
+			return "bad-op"
+		}
+		k, ok := atoi(w[1])
+		if !ok || k < 0 {
+			return "bad-op"
+		}
+		if e.node.Chain.GetOrphanPool().IsKnownOrphan(chainkit.JunkBlock(k).Hash(e.node.Cfg)) {
+			return "yes"
+		}
+		return "no"
+	}
 	if w[0] == "tx" {
 		if len(w) != 2 {
 			return "bad-op"
@@ -210,8 +332,21 @@ func (e *env) run(line string) string {
 		r := e.node.Deliver(e.tree.Blocks[id], fmt.Sprintf("peer%d", id%3))
 		e.seen[id]++
 		e.order = append(e.order, id)
+		e.evs = append(e.evs, w[1])
 		out.Stat("deliver_"+r.String(), 1)
 		return r.String() + " " + e.tipStr()
+	case "finalize":
+		id, ok := arg()
+		if !ok {
+			return "bad-op"
+		}
+		h := e.node.Finalize(e.tree.Height[id], e.tree.Hash[id])
+		if h > e.finMax {
+			e.finMax = h
+		}
+		e.evs = append(e.evs, fmt.Sprintf("fin%d->%d", id, h))
+		out.Stat("finalize_ops", 1)
+		return fmt.Sprintf("fin=%d", h)
 	case "chain":
 		hs, clean := e.node.MainChain()
 		ids := make([]string, len(hs))
@@ -288,7 +423,7 @@ func (e *env) detail() string {
 		s := e.specs[i]
 		sb.WriteString(fmt.Sprintf("%d<-%d@%d/w%s ", i, s.Parent, e.tree.Height[i], e.tree.Work[i]))
 	}
-	sb.WriteString("order=" + strings.Trim(fmt.Sprint(e.order), "[]"))
+	sb.WriteString("events=" + strings.Join(e.evs, " "))
 	return sb.String()
 }
 
@@ -365,6 +500,20 @@ func (e *env) predicates() {
 		}
 	}
 	out.Stat("cases_full_delivery", 1)
+	// outside the hypotheses of order_independent (Props/C25.lean): a restart forgets side branches
+	// and orphans; orphans expire after orphanExpirationTime; the pool holds maxOrphanBlocks blocks
+	e.noteFin()
+	switch {
+	case e.restarts > 0:
+		out.Stat("cases_with_restart", 1)
+		return
+	case e.clock > int64(e.ttl):
+		out.Stat("cases_beyond_orphan_expiry", 1)
+		return
+	case len(e.specs)-1+e.junk > e.lim:
+		out.Stat("cases_beyond_orphan_limit", 1)
+		return
+	}
 	// nothing may be left in the orphan pool, every block has its TD stored
 	for i := 1; i < len(e.specs); i++ {
 		if n.Chain.GetOrphanPool().IsKnownOrphan(t.Hash[i]) {
@@ -380,7 +529,7 @@ func (e *env) predicates() {
 		out.Stat("cases_heaviest_not_unique", 1)
 		return
 	}
-	if t.Height[best] < finalized+margin {
+	if t.Height[best] < e.finMax+margin {
 		out.Stat("cases_heaviest_below_margin", 1)
 		return
 	}
@@ -465,6 +614,9 @@ type tcase struct {
 	blocks []blk // index 0 unused (genesis)
 	order  []int
 	each   bool // observe chain/seqs after every delivery
+	// pre[i]: extra op lines (tick / finalize / restart / junk / fin) issued before delivery i;
+	// pre[len(order)]: before the final observations
+	pre map[int][]string
 }
 
 const gbits = 0x1f2fffff // solo genesis difficulty (checked against the node on `case`)
@@ -475,7 +627,8 @@ func (c *tcase) lines() []string {
 	if c.rec {
 		rec = 1
 	}
-	ls = append(ls, fmt.Sprintf("case %s %d %d %d %d", c.name, finalized, margin, rec, gbits))
+	lim, ttl, _ := chainkit.OrphanLimits()
+	ls = append(ls, fmt.Sprintf("case %s %d %d %d %d %d %d", c.name, finalized, margin, rec, gbits, lim, ttl))
 	for i := 1; i < len(c.blocks); i++ {
 		b := c.blocks[i]
 		tx := "-"
@@ -498,7 +651,8 @@ func (c *tcase) lines() []string {
 			}
 		}
 	}
-	for _, id := range c.order {
+	for idx, id := range c.order {
+		ls = append(ls, c.pre[idx]...)
 		ls = append(ls, fmt.Sprintf("deliver %d", id))
 		if c.each {
 			ls = append(ls, "chain")
@@ -512,7 +666,8 @@ func (c *tcase) lines() []string {
 			}
 		}
 	}
-	ls = append(ls, "chain")
+	ls = append(ls, c.pre[len(c.order)]...)
+	ls = append(ls, "chain", "fin")
 	for _, t := range tags {
 		ls = append(ls, fmt.Sprintf("tx %d", t))
 	}
@@ -712,11 +867,85 @@ func genCases(seed uint64) []tcase {
 		rc := rec()
 		orders := 1 + r.Intn(3)
 		for j := 0; j < orders; j++ {
-			cs = append(cs, tcase{name: fmt.Sprintf("big%d.%d", i, j), rec: rc, blocks: bs,
-				order: randomOrder(r, bs, trunk), each: r.Chance(1, 2)})
+			c := tcase{name: fmt.Sprintf("big%d.%d", i, j), rec: rc, blocks: bs,
+				order: randomOrder(r, bs, trunk), each: r.Chance(1, 2)}
+			flavour(r, &c, trunk)
+			cs = append(cs, c)
+		}
+	}
+	if gen.Thorough() {
+		for i := 0; i < 2; i++ {
+			cs = append(cs, limitCase(r, i))
 		}
 	}
 	return cs
+}
+
+// flavour sprinkles extension events over a case: finaliser requests (mostly low trunk blocks, so
+// that the margin rule still lets branches win; sometimes arbitrary blocks, stale or off-chain
+// ones), clock ticks (small ones, rarely one beyond the orphan expiry), restarts.
+func flavour(r *gen.Rand, c *tcase, trunk int) {
+	c.pre = map[int][]string{}
+	n := len(c.order)
+	add := func(pos int, op ...string) { c.pre[pos] = append(c.pre[pos], op...) }
+	_, ttl, _ := chainkit.OrphanLimits()
+	pRestart := 6
+	if prop == "C26" {
+		pRestart = 2
+	}
+	if r.Chance(1, 3) { // finaliser
+		k := 1 + r.Intn(4)
+		for j := 0; j < k; j++ {
+			id := 1 + r.Intn(min(trunk, 4))
+			if r.Chance(1, 4) {
+				id = 1 + r.Intn(len(c.blocks)-1)
+			}
+			add(r.Intn(n+1), fmt.Sprintf("finalize %d", id), "fin")
+		}
+	}
+	if r.Chance(1, 4) { // clock
+		budget := ttl
+		for j := 0; j < 1+r.Intn(3); j++ {
+			d := 1 + r.Intn(budget/3)
+			add(r.Intn(n+1), fmt.Sprintf("tick %d", d))
+		}
+		if r.Chance(1, 4) {
+			add(r.Intn(n+1), fmt.Sprintf("tick %d", ttl+1))
+		}
+	}
+	if r.Chance(1, pRestart) { // restart
+		for j := 0; j < 1+r.Intn(2); j++ {
+			add(r.Intn(n+1), "restart", "chain", "seqs", "fin")
+		}
+	}
+}
+
+// limitCase: the pool is filled to maxOrphanBlocks with orphans that belong to no tree while the
+// upper part of a chain waits in it (delivered children first); what the node evicts, and the
+// stale oldestOrphan pointer, are compared with the model.  Expensive (quadratic sweep): thorough.
+func limitCase(r *gen.Rand, i int) tcase {
+	lim, _, _ := chainkit.OrphanLimits()
+	trunk := 12
+	up := 4 + r.Intn(3)
+	bs := []blk{{}}
+	for h := 1; h <= trunk+up; h++ {
+		bs = append(bs, blk{parent: h - 1, height: h, work: 2, txs: []int{h * 4}})
+	}
+	c := tcase{name: fmt.Sprintf("limit%d", i), rec: r.Bool(), blocks: bs, pre: map[int][]string{}}
+	c.order = seqInts(1, trunk-1)
+	start := len(c.order)
+	// children first, the missing link (block `trunk`) last
+	for id := trunk + up; id > trunk; id-- {
+		c.order = append(c.order, id)
+	}
+	c.order = append(c.order, trunk)
+	// junk fills the pool at a random point of the children-first phase, a little more afterwards
+	fill := lim - up + r.Intn(4) - 1
+	pos := start + r.Intn(up)
+	c.pre[pos] = append(c.pre[pos], fmt.Sprintf("junk %d", fill), "isjunk 0", "isjunk 1")
+	c.pre[len(c.order)-1] = append(c.pre[len(c.order)-1], fmt.Sprintf("junk %d", r.Intn(3)), "isjunk 0", "isjunk 1", "isjunk 2")
+	c.pre[len(c.order)] = append(c.pre[len(c.order)], fmt.Sprintf("junk %d", 1+r.Intn(4)), "isjunk 0", "isjunk 1", "isjunk 2", "isjunk 3")
+	return c
 }
 
 // ---------------------------------------------------------------------------- main
